@@ -96,6 +96,20 @@ def scenario (v : Variant) (p : Params) (A B : List Msg) : Outcome × Nat :=
   let r := runWait v p [] ((A ++ B).map .recv ++ [.tick])
   (r.1, r.2.length)
 
+/-! ## Several attempts on one check
+
+`listen` closes the receiver and the listener goroutine of the previous attempt before it resets the
+per-attempt state, and a listener whose receiver was closed records nothing: attempts are
+independent runs of `runWait` from an empty set of confirmations (this is what the driver computes
+for a `dones` line).  Before the repair the listener of an attempt that never reached
+`waitUntilAllDone` stayed alive: it validated with ITS message / attempt number / timeout but
+against the CURRENT attempt's members and recorded into the current attempt's confirmations. -/
+
+/-- one iteration of a stale listener (parameters `old`) while attempt `cur` is listening —
+    the code before the repair -/
+def receiveStale (old cur : Params) (done : Done) (m : Msg) : Done :=
+  receive .fixed { cur with message := old.message, attempt := old.attempt, timeout := old.timeout } done m
+
 /-! ## Monitor -/
 
 /-- `m` is a confirmation the property accepts from included member `i` for signature `sig` -/
